@@ -197,11 +197,12 @@ Lemma build_fuel_mono v js t r : forall f k cur ds ts,
 Proof.
   induction f as [|f IH]; intros k cur ds ts H; [discriminate|].
   cbn [Nat.add]. cbn [build] in *.
+  destruct (negb (jv_container_key v) && ds_is_empty ds); [exact H|].
   destruct (tok_at t cur); [|exact H].
   destruct (bswitch v js t0 cur ds ts) as [[[c1 d1] t1]| | |]; try exact H.
   unfold bmid in *. destruct (tok_at t c1); [|exact H].
   destruct ((tend t2 =? 0)%Z || match t1 with [] => true | _ :: _ => false end); [exact H|].
-  destruct (pop_loop (tend t2) t1 d1) as [[t3 d3]| | |]; try exact H.
+  destruct (pop_loop v (tend t2) t1 d1) as [[t3 d3]| | |]; try exact H.
   destruct t3 as [|back t3]; [exact H|].
   destruct (bkey v js t back t2 c1 d3) as [[[[] c4] d4]| | |]; try exact H.
   destruct (ttype back =? T_ARRAY); [destruct (ds_push_elem d4); [|exact H]|]; now apply IH.
